@@ -395,4 +395,27 @@ theorem applyLoop_patch (ser : JVal → Bytes) (eq : JVal → JVal → Bool) (pa
     · simp only [Outcome.ok.injEq] at h; subst h; rfl
     · exact ih _ _ _ _ r h
 
+theorem isNull_null : isNull JVal.null = true := rfl
+
+/-- the `*base` calling convention on a real document -/
+theorem applyC_base (ser : JVal → Bytes) (eq : JVal → JVal → Bool) (doc : JVal) (elems : List JVal)
+    (hdoc : isNull doc = false) :
+    applyC ser eq .null doc (.arr elems) = applyLoop ser eq (.arr elems) 0 none doc [] elems := by
+  simp [applyC, hdoc, isNull_null]
+
+/-- the `copy_from` calling convention on a real document -/
+theorem applyC_copy (ser : JVal → Bytes) (eq : JVal → JVal → Bool) (doc : JVal) (elems : List JVal)
+    (hdoc : isNull doc = false) :
+    applyC ser eq doc .null (.arr elems) = applyLoop ser eq (.arr elems) 0 none doc [] elems := by
+  simp [applyC, hdoc, isNull_null]
+
+theorem smallRun_cons (doc : JVal) (op : Rfc6902.Op) (ops : List Rfc6902.Op) (d0 : JVal)
+    (hs : small doc = true) (h0 : Rfc6902.applyOp doc op = .ok d0) (hrest : SmallRun d0 ops) :
+    SmallRun doc (op :: ops) :=
+  ⟨hs, fun d h => by rw [h0] at h; cases h; exact hrest⟩
+
+theorem smallRun_cons_err (doc : JVal) (op : Rfc6902.Op) (ops : List Rfc6902.Op) (e : Rfc6902.Err)
+    (hs : small doc = true) (h0 : Rfc6902.applyOp doc op = .error e) : SmallRun doc (op :: ops) :=
+  ⟨hs, fun d h => by rw [h0] at h; cases h⟩
+
 end JsonC.Patch
